@@ -1269,4 +1269,153 @@ open Flax.NatSort in
 example : natSort ["r2e3".toList, "r2e-4".toList] = ["r2e-4".toList, "r2e3".toList] ∧
     tokens "r2e3".toList = [Tok.text "r".toList, Tok.num "2e3".toList, Tok.text []] := by decide  -- the step is not a token of its own
 
+
+/-! ## natural_sort on printed floats and exponent notation; `_checkpoint_path_step`
+
+The step may now be any printed number `[-+]?digits(.digits*)?([eE][-+]?digits)?` (`IsNumLit`: what `str(int)` and
+`repr(float)` print for finite values), valued exactly as the decimal `± m · 10^e` it denotes (`decOf`).  What is left
+of assumption A-NAT for such steps is only that Python's `float()` orders these literals as their decimal values do
+(A-FLOAT).  The guard on the prefix is unchanged: its last character is inert; it may contain digits. -/
+
+open Flax.NatSort in
+/-- every printed number is one whole token for the regex -/
+theorem printed_number_is_one_token {l : List Char} (h : IsNumLit l) : FullMatch l := fullMatch_of_isNumLit h
+
+open Flax.NatSort in
+theorem natural_sort_key_of_number_name (Q : List Char) (c : Char) (hc : Inert c) :
+    ∃ K A, ∀ l, FullMatch l →
+      natKey (Q ++ [c] ++ l) = K ++ [KElem.str A, KElem.num (decOf l), KElem.str []] := by
+  obtain ⟨toks, acc', h⟩ := scan_stable c hc Q 0 [] (Nat.zero_le _)
+  refine ⟨toks.map keyOfTok, acc' ++ [c], fun l hl => ?_⟩
+  have : Q ++ [c] ++ l = Q ++ c :: l := by simp
+  rw [this]
+  simp only [natKey, tokens, h, scan_fullMatch hl, List.map_append, List.map_cons, List.map_nil, keyOfTok]
+
+open Flax.NatSort in
+/-- Python's comparison of the keys of two such names is the exact comparison of the two printed numbers -/
+theorem natural_sort_compares_numbers_by_value (Q : List Char) (c : Char) (hc : Inert c) {a b : List Char}
+    (ha : FullMatch a) (hb : FullMatch b) :
+    keyCmp (natKey (Q ++ [c] ++ a)) (natKey (Q ++ [c] ++ b)) = decCmp (decOf a) (decOf b) := by
+  obtain ⟨K, A, h⟩ := natural_sort_key_of_number_name Q c hc
+  rw [h a ha, h b hb, keyCmp_append_left]
+  simp only [keyCmp, elemCmp, strCmp_self]
+  cases decCmp (decOf a) (decOf b) <;> rfl
+
+open Flax.NatSort in
+/-- `decCmp` is the order of the values: for any common exponent `E0` below both it compares the integers
+`value · 10^(-E0)` -/
+theorem decCmp_is_value_order (a b : Dec) (hclose : (a.e - b.e).natAbs ≤ 4096) {E0 : Int}
+    (ha : E0 ≤ a.e) (hb : E0 ≤ b.e) : decCmp a b = compare (a.scaled E0) (b.scaled E0) :=
+  decCmp_eq_compare_scaled a b hclose ha hb
+
+/-- the value of a printed number times `10^(-E0)` -/
+def valAt (E0 : Int) (l : List Char) : Int := (NatSort.decOf l).scaled E0
+
+open Flax.NatSort in
+/-- `natural_sort` of any list of names `<…inert char><printed number>` (ints, floats, exponent notation mixed; any
+order; repetitions and equal values allowed) is the stable sort by decimal value; the result is ascending by value
+and a permutation.  `E0` is any exponent below all of them, within 4096 of all of them (doubles: within 700). -/
+theorem natural_sort_orders_numbers_by_value (Q : List Char) (c : Char) (hc : Inert c) (E0 : Int)
+    (ls : List (List Char)) (hfm : ∀ l ∈ ls, FullMatch l)
+    (hlo : ∀ l ∈ ls, E0 ≤ (decOf l).e) (hhi : ∀ l ∈ ls, (decOf l).e ≤ E0 + 4096) :
+    natSort (ls.map (fun l => Q ++ [c] ++ l)) = (sortBy (keyLe (valAt E0)) ls).map (fun l => Q ++ [c] ++ l) ∧
+    (sortBy (keyLe (valAt E0)) ls).Pairwise (fun x y => valAt E0 x ≤ valAt E0 y) ∧
+    (sortBy (keyLe (valAt E0)) ls).Perm ls := by
+  refine ⟨?_, sorted_sortBy_key _ _, sortBy_perm _ _⟩
+  unfold natSort
+  rw [sortBy_map (fun l => Q ++ [c] ++ l) (fun a b => natLe (Q ++ [c] ++ a) (Q ++ [c] ++ b)) natLe (fun _ _ => rfl)]
+  congr 1
+  apply sortBy_congr
+  intro a ha b hb
+  have hcl : ((decOf a).e - (decOf b).e).natAbs ≤ 4096 := by
+    have := hlo a ha; have := hlo b hb; have := hhi a ha; have := hhi b hb; omega
+  simp only [natLe, natural_sort_compares_numbers_by_value Q c hc (hfm a ha) (hfm b hb),
+    decCmp_eq_compare_scaled _ _ hcl (hlo a ha) (hlo b hb), keyLe, valAt]
+  rcases int_compare_cases ((decOf a).scaled E0) ((decOf b).scaled E0) with ⟨h1, h2⟩ | ⟨h1, h2⟩ | ⟨h1, h2⟩
+  · have : (decOf a).scaled E0 ≤ (decOf b).scaled E0 := by omega
+    simp [h1, this]
+  · have : (decOf a).scaled E0 ≤ (decOf b).scaled E0 := by omega
+    simp [h1, this]
+  · have : ¬ (decOf a).scaled E0 ≤ (decOf b).scaled E0 := by omega
+    simp [h1, this]
+
+open Flax.NatSort in
+/-- `latest_checkpoint` for such names: the last name of the natural sort is the name of a step of largest value -/
+theorem natural_sort_latest_is_max_number (Q : List Char) (c : Char) (hc : Inert c) (E0 : Int)
+    (ls : List (List Char)) (hne : ls ≠ []) (hfm : ∀ l ∈ ls, FullMatch l)
+    (hlo : ∀ l ∈ ls, E0 ≤ (decOf l).e) (hhi : ∀ l ∈ ls, (decOf l).e ≤ E0 + 4096) :
+    ∃ m ∈ ls, (∀ x ∈ ls, valAt E0 x ≤ valAt E0 m) ∧
+      (natSort (ls.map (fun l => Q ++ [c] ++ l))).getLast? = some (Q ++ [c] ++ m) := by
+  obtain ⟨h1, h2, h3⟩ := natural_sort_orders_numbers_by_value Q c hc E0 ls hfm hlo hhi
+  cases hl : (sortBy (keyLe (valAt E0)) ls).getLast? with
+  | none =>
+    have hnil : sortBy (keyLe (valAt E0)) ls = [] := List.getLast?_eq_none_iff.mp hl
+    rw [hnil] at h3
+    exact absurd h3.symm.eq_nil hne
+  | some m =>
+    refine ⟨m, h3.mem_iff.mp (List.mem_of_getLast? hl), ?_, ?_⟩
+    · intro x hx
+      exact le_getLast_of_sorted_key _ h2 hl x (h3.mem_iff.mpr hx)
+    · rw [h1, List.getLast?_map, hl]; rfl
+
+open Flax.NatSort in
+/-- non-vacuity: what Python prints for finite floats is in the class -/
+example : IsNumLit "-2.5e+16".toList :=
+  ⟨['-'], ['2'], ['.', '5'], ['e', '+', '1', '6'], rfl, Or.inr (Or.inr rfl), by simp,
+    by intro c hc; simp at hc; subst hc; decide,
+    Or.inr ⟨['5'], rfl, by intro c hc; simp at hc; subst hc; decide⟩,
+    Or.inr ⟨'e', ['+'], ['1', '6'], rfl, by decide, Or.inr (Or.inl rfl), by simp,
+      by intro c hc; simp at hc; rcases hc with rfl | rfl <;> decide⟩⟩
+
+open Flax.NatSort in
+example : FullMatch "1e-05".toList ∧ FullMatch "100000.0".toList ∧ FullMatch "0.5".toList ∧ FullMatch "-7".toList ∧
+    FullMatch "3e+20".toList ∧ FullMatch "5.".toList := by
+  simp only [FullMatch]; decide
+
+open Flax.NatSort in
+example : decOf "1e-05".toList = { neg := false, m := 1, e := -5 } ∧
+    decOf "-2.5e+16".toList = { neg := true, m := 25, e := 15 } ∧
+    decOf "100000.0".toList = { neg := false, m := 1000000, e := -1 } := by decide
+
+open Flax.NatSort in
+example : natSort ["ck_1e-05".toList, "ck_-2.5e+16".toList, "ck_0.5".toList, "ck_3".toList, "ck_1e+16".toList, "ck_-1.0".toList] =
+    ["ck_-2.5e+16".toList, "ck_-1.0".toList, "ck_1e-05".toList, "ck_0.5".toList, "ck_3".toList, "ck_1e+16".toList] := by decide
+
+open Flax.NatSort in
+/-- **`_checkpoint_path_step`.**  The step the retention code reads off a path is the LAST number of the whole path:
+for a name `<anything ending in an inert character><printed number>` — digits in the directory or in the prefix
+(`run2_`, `/tmp/tmp81x/ckpt_`) notwithstanding — it is the printed step. -/
+theorem checkpoint_path_step_is_the_step (Q : List Char) (c : Char) (hc : Inert c) {l : List Char}
+    (hl : FullMatch l) : pathStep (Q ++ [c] ++ l) = some (decOf l) := by
+  obtain ⟨toks, acc', h⟩ := scan_stable c hc Q 0 [] (Nat.zero_le _)
+  have : Q ++ [c] ++ l = Q ++ c :: l := by simp
+  rw [this]
+  simp only [pathStep, pathStepTok, tokens, h, scan_fullMatch hl, lastNum_append_num, Option.map_some]
+
+open Flax.NatSort in
+/-- for integer steps: the value read is the step -/
+theorem checkpoint_path_step_of_int (Q : List Char) (c : Char) (hc : Inert c) (n : Int) :
+    ∃ d, pathStep (stepName (Q ++ [c]) n) = some d ∧ d.e = 0 ∧ d.signed = n := by
+  refine ⟨decOf (showInt n), ?_, (decOf_showInt n).1, (decOf_showInt n).2⟩
+  exact checkpoint_path_step_is_the_step Q c hc (fullMatch_showInt n)
+
+/-- the variant "first number of the name" (seeded change C11_e) -/
+def firstNum : List NatSort.Tok → Option (List Char)
+  | [] => none
+  | .num s :: _ => some s
+  | .text _ :: r => firstNum r
+
+open Flax.NatSort in
+/-- closed counter-example: with the prefix `run2_`, the step of `run2_7` is 7 (last number, as coded); the first
+number is the 2 of the prefix — every checkpoint would read as step 2 and `keep_every_n_steps` would retain nothing
+after the first -/
+theorem checkpoint_path_step_first_number_differs :
+    pathStepTok "run2_7".toList = some "7".toList ∧ firstNum (tokens "run2_7".toList) = some "2".toList ∧
+    pathStepTok "/tmp/a1.5-x/run2_7".toList = some "7".toList := by decide
+
+open Flax.NatSort in
+/-- and natural_sort itself is sound for such a prefix (instance of the theorems above: last character `_`) -/
+example : natSort ["run2_10".toList, "run2_9".toList, "run2_-1".toList] =
+    ["run2_-1".toList, "run2_9".toList, "run2_10".toList] := by decide
+
 end Flax.C11
